@@ -208,16 +208,18 @@ def classify_write(prog, f, n, R, toupper_ok):
         return 'ok', 'string', 'exactly %s characters' % atom
     if m['k'] == 'DeclRefExpr' and m['decl'].get('dk') == 'local':
         t = m['decl'].get('type', '')
-        am = re.match(r'^(?:const )?char\[(\d+)\]$', t)
+        am = re.match(r'^(?:const )?(char|unsigned char|signed char|short|unsigned short|int|unsigned int|float|long|unsigned long|double|int16_t|uint16_t|int32_t|uint32_t|uint8_t|int8_t)\[(\d+)\]$', t)
         if am:
-            size = int(am.group(1))
+            esz = {'char': 1, 'unsigned char': 1, 'signed char': 1, 'uint8_t': 1, 'int8_t': 1, 'short': 2, 'unsigned short': 2, 'int16_t': 2, 'uint16_t': 2,
+                   'int': 4, 'unsigned int': 4, 'float': 4, 'int32_t': 4, 'uint32_t': 4, 'long': 8, 'unsigned long': 8, 'double': 8}[am.group(1)]
+            size = int(am.group(2)) * esz
             if local_init(f, m['decl']['id']) is None:
-                return 'violation', 'array', 'char array `%s` has no initialiser' % m['decl']['name']
+                return 'violation', 'array', 'array `%s` has no initialiser' % m['decl']['name']
             for w in widths:
                 c = w.get((), 0) if set(w.keys()) <= {()} else None
                 if c is None or c > size:
                     return 'violation', 'width', 'byte count %s is not bounded by the array size %d' % (P.show(w), size)
-            return 'ok', 'array', 'initialised char[%d]' % size
+            return 'ok', 'array', 'initialised local array of %d bytes' % size
     if m['k'] == 'StringLiteral':
         size = len(m.get('v', '')) + 1
         for w in widths:
